@@ -44,6 +44,7 @@ def plan(tier, seed):
     for i in range(r):
         shards.append({'name': 'random-%d' % i, 'fn': 'shard_random', 'args': {'part': i, 'parts': r}})
     shards.append({'name': 'scores', 'fn': 'shard_scores', 'args': {}})
+    shards.append({'name': 'many-distinct-tuples', 'fn': 'shard_many_tuples', 'args': {}})
     for i in range(2 if tier == 'quick' else 6):
         shards.append({'name': 'pipeline-%d' % i, 'fn': 'shard_pipeline', 'args': {'part': i}})
     return shards
@@ -260,3 +261,14 @@ def shard_pipeline(sh, part):
                              lambda: {'column': nm, 'problem': bad, 'heuristic': heuristic, 'rows': rows[:20], 'values': vals[:20]})
                     collision_seen = collision_seen or concat_collision(data, combo)
         sh.case(('pipeline', cls, order, core.h64(rows)), True, 'pipeline/' + cls, sample={'columns': list(frame.columns)[:8], 'rows': rows[:4]} if t % 10 == 0 else None)
+
+
+def shard_many_tuples(sh):
+    """A batch holding hundreds of thousands of distinct value tuples: a joint-value code narrower than 64 bits would make rows
+    that disagree on a constituent share a value (birthday bound of a 32-bit code is ~2^16 tuples)."""
+    cr = pipe.fresh_core_ranking()
+    n = 300000 if sh.tier == 'quick' else 900000
+    data = {'u': ['u%d' % (i // 700) for i in range(n)], 'v': [str(i % 700) for i in range(n)], 'w': ['w%d' % (i % 3) for i in range(n)], 'label': ['y%d' % (i % 2) for i in range(n)]}
+    cols = list(data)
+    verify(sh, cr, data, cols, 'label', 2, 10 ** 6, False, 'many-distinct-tuples(%d rows)' % n, sample=False)
+    sh.notes['rows'] = n
